@@ -155,8 +155,6 @@ namespace c11
     return os.str();
   }
 
-  template<> struct TargetDump<Shape::Hypercube<1>, -1> { static void go(std::ostream&, const TargetSetHolder<Shape::Hypercube<1>>&) {} };
-
   // ---------------------------------------------------------------------------------------------- typed parse
   template<typename Mesh_>
   void parse_typed(MeshFileReader& reader, Parsed& out, bool want_written, bool want_canon)
